@@ -3,7 +3,7 @@
 import os
 
 from mc import explore
-from . import topo
+from . import topo, e2part
 
 BASES = ['fifo', 'asc', 'desc', 'lifo']
 
@@ -30,6 +30,8 @@ def run(rep):
         core = [s for s in fam if s['name'].split('/')[0] in ('rejoin2', 'chain3', 'join2', 'tee') and
                 all(b in ('pass', 'skip1') for b in s['name'].split('/')[1:3] if b in topo.BEH)]
         explore.explore(rep, 'core-d2', core, 2, ['fifo'], 'checks.oracles:oracle_c01', budget_s=1500)
+
+    e2part.run_e2(rep, 'C01')
 
     rep.set('traces_validated_against_impl', rep.coverage.get('evaluations', 0))
     rep.set('distinct_nontrivial', rep.coverage.get('distinct_outcomes', 0))
